@@ -196,6 +196,23 @@ def run_tlapm(module, timeout=900):
     raise ToolError("tlapm gave no verdict on %s" % module)
 
 
+def run_apalache(prop, module, init, inv, length, timeout=600):
+    """apalache-mc check in a scratch directory; returns ("ok" | "violated", seconds)."""
+    t0 = time.time()
+    d = workdir(prop, "apalache_%s_%s_%d" % (module, inv, length))
+    shutil.copy(os.path.join(SPEC, module + ".tla"), d)
+    p = subprocess.run(["timeout", str(timeout), "apalache-mc", "check", "--init=" + init, "--inv=" + inv, "--length=%d" % length,
+                        "--out-dir=" + os.path.join(d, "out"), module + ".tla"], cwd=d, stdout=subprocess.PIPE, stderr=subprocess.STDOUT, text=True)
+    out = p.stdout
+    shutil.rmtree(d, ignore_errors=True)
+    if "The outcome is: NoError" in out:
+        return "ok", time.time() - t0
+    if "The outcome is: Error" in out and "invariant" in out:
+        return "violated", time.time() - t0
+    log(out[-2000:])
+    raise ToolError("apalache gave no verdict on %s (%s)" % (module, inv))
+
+
 def fdv(args, stdin_file=None, timeout=3600, capture=True):
     p = subprocess.run([FDV] + args, stdout=subprocess.PIPE if capture else None, stderr=subprocess.STDOUT if capture else None,
                        text=True, timeout=timeout, stdin=open(stdin_file) if stdin_file else None)
